@@ -78,7 +78,7 @@ def judge(case) -> Verdict:
 @st.composite
 def pair_st(draw, tier):
     platform = draw(st.sampled_from(["ios", "nxos"]))
-    kmax = draw(st.sampled_from([4, 4, 4, 4, 4, 7]))
+    kmax = draw(st.sampled_from([4, 4, 4, 4, 4, 4, 7, 7, 9]))
     top = draw(G.ace_st(platform, kmax=kmax, groups=True, members=True, empty_sets=True, seq=False, noise=False))
     bottom = draw(G.mutate_ace(top, platform, kmax=kmax, groups=True, empty_sets=True))
     if draw(st.integers(0, 9)) == 0:
@@ -94,6 +94,17 @@ def pair_st(draw, tier):
         top[side] = G.native_addr(G.addr_pair(net), platform)
         bottom[side] = grp
         bottom["action"] = top["action"]
+    elif draw(st.sampled_from(range(8))) == 0:
+        # a group of consecutive equal-size networks on top, a neighbouring / inner / enclosing block below
+        from checks.c13 import adjacent_run_group
+
+        grp, net = draw(adjacent_run_group())
+        side = draw(st.sampled_from(["src", "dst"]))
+        top[side] = grp
+        bottom[side] = G.native_addr(G.addr_pair(net), platform)
+        bottom["action"] = top["action"]
+        other = "dst" if side == "src" else "src"
+        bottom[other] = dict(top[other])
     # usual Cisco order 'log <other options>': the log keyword in front of the flag tokens
     for rec in (top, bottom):
         if rec.get("flags") and draw(st.sampled_from([True, False, False])):
